@@ -215,6 +215,8 @@ def gen_key(rng, node, p_exist=0.5):
 
 def gen_op(rng, state):
     """state: skeleton of the current root"""
+    if rng.random() < 0.07:
+        return gen_update(rng, state)
     nodes = nodes_of(state)
     h, node = ((), state) if rng.random() < 0.55 else rng.choice(nodes)
     h = tuple(h)
@@ -305,6 +307,45 @@ def gen_op(rng, state):
     return ["clear", h]
 
 
+def gen_pv(rng, dest_bs, dev, depth=0):
+    """a payload value of update: a tensor (well / ill shaped, any device) or a nested dict"""
+    if depth >= 2 or rng.random() < 0.65:
+        sh = gen_shape_ext(rng, dest_bs, 0, 2)
+        if rng.random() < 0.2:
+            sh = mutate_shape(rng, sh)
+        d = dev if (dev is not None and rng.random() < 0.7) else rng.choice([0, 0, 1])
+        return ["l", sh[:5], d]
+    return ["d", [[k, gen_pv(rng, dest_bs, dev, depth + 1)] for k in rng.sample(KEYS, rng.randint(0, 2))]]
+
+
+def gen_update(rng, state):
+    nodes = nodes_of(state)
+    h, node = ((), state) if rng.random() < 0.6 else rng.choice(nodes)
+    items, seen = [], set()
+    for _ in range(rng.randint(1, 3)):
+        key = gen_key(rng, node, 0.5)[:3]
+        if key in seen:
+            continue
+        seen.add(key)
+        dest = get_at(node, key[:-1])
+        if dest is None or dest[0] != "n":
+            dest = node
+        items.append([list(key), gen_pv(rng, dest[1], dest[2])])
+    return ["update", tuple(h), items]
+
+
+def build_pv(v):
+    if v[0] == "l":
+        return torch.zeros(v[1], device=DEVS[v[2]])
+    return {k: build_pv(x) for k, x in v[1]}
+
+
+def sx_pv(v):
+    if v[0] == "l":
+        return f"(l {sx_nats(v[1])} {v[2]})"
+    return "(d" + "".join(f" ({hexs(k)} {sx_pv(x)})" for k, x in v[1]) + ")"
+
+
 # --------------------------------------------------------------------------- implementation executor
 def cls_of(e):
     if isinstance(e, NotImplementedError):
@@ -367,6 +408,8 @@ def apply_impl(td, op, tlimit=10.0):
                 node.setdefault(tuple(op[2]), op[4])
             elif kind == "refine":
                 node.refine_names(*op[2])
+            elif kind == "update":
+                node.update({tuple(k): build_pv(v) for k, v in op[2]})
             else:
                 raise AssertionError(kind)
         return ["ok"]
@@ -426,6 +469,8 @@ def sx_op(op):
         return f"(setdefault {sx_path(op[1])} {sx_path(op[2])} {sx_tree(op[3])})"
     if k == "refine":
         return f"(refine {sx_path(op[1])} {sx_names(op[2])})"
+    if k == "update":
+        return f"(update {sx_path(op[1])}" + "".join(f" ({sx_path(kk)} {sx_pv(v)})" for kk, v in op[2]) + ")"
     raise AssertionError(k)
 
 
